@@ -20,10 +20,9 @@ from harness import common
 from harness import c05_gen as G
 from harness import c05_lib as L
 
-REQUIRED_FINAL = [
+REQUIRED = [
     "type_round_trip", "type_print_fixpoint", "type_imports_preserved",
-    "parse_print", "print_fixpoint", "verify_preserved", "norm_idempotent_print",
-    "canonical_idempotent", "fragment_nonempty",
+    "parse_print", "print_fixpoint", "reparse_reprints", "verify_preserved", "canonical_idempotent",
 ]
 
 PY_VERSION = (3, 12)
@@ -112,9 +111,6 @@ def has_property_method(unit, pytd):
 # ----------------------------------------------------------------------------
 # K
 # ----------------------------------------------------------------------------
-REQUIRED = ["type_round_trip", "type_print_fixpoint", "type_imports_preserved"]
-
-
 def parse_answer(out):
   return dict(x.split("=", 1) for x in out.split("\t"))
 
@@ -124,7 +120,8 @@ def compare_unit(mods, unit, ans, src=None):
   _, _, parser, pytd, pytd_utils, visitors = mods
   opts = parser.PyiOptions(python_version=PY_VERSION)
   f = parse_answer(ans)
-  info = {"frag": f["frag"] == "1", "modelled": f["modelled"] == "1", "guards": f["guards"]}
+  info = {"frag": f["frag"] == "1", "modelled": f["modelled"] == "1", "guards": f["guards"],
+          "cstable": f.get("cstable") == "1"}
 
   def dis(kind, **kw):
     d = {"kind": kind, "unit": L.unit_sx(pytd, unit)}
@@ -238,6 +235,8 @@ def _worker_units(args):
     stats[cat] += 1
     if info["frag"]:
       stats["in-fragment"] += 1
+      if info["cstable"]:
+        stats["in-fragment-canon-stable"] += 1
     for gname in info["guards"].split(","):
       if gname:
         guards[gname] += 1
@@ -292,6 +291,8 @@ def _worker_programs(args):
     stats[cat] += 1
     if info["frag"]:
       stats["in-fragment"] += 1
+      if info["cstable"]:
+        stats["in-fragment-canon-stable"] += 1
     for gname in info["guards"].split(","):
       if gname:
         guards[gname] += 1
@@ -466,6 +467,15 @@ def search(res, rng, disagreements, pfail):
     if is_class_body_comprehension_leak(u, pytd) or has_property_method(u, pytd):
       return False  # exactly the characterised known findings
     return oracle_unit(u, mods) is not None
+  # 0. the disagreeing units themselves (only those inside InFragment: outside it a failing round trip is
+  #    documented behaviour, not a violation)
+  for d in disagreements:
+    if d.get("kind", "").startswith("in-fragment") and "text" in d:
+      bad = oracle_text(d["text"], mods)
+      if bad is not None:
+        found.append({"unit_text": d["text"], "what": bad, "note": "in-fragment unit from the correspondence stage"})
+        if len(found) >= 2:
+          return found
   # 1. programs from the disagreements (emitted stubs)
   for d in disagreements:
     if "program" in d:
@@ -493,21 +503,41 @@ def search(res, rng, disagreements, pfail):
         found.append({"program": "\n".join(small), "emitted_stub": t2, "what": oracle_text(t2.rstrip("\n"), mods)})
         if len(found) >= 2:
           return found
-  # 2. fresh units in the emitted dialect (the generator without out-of-dialect features), all stages
+  # 2. fresh units inside InFragment (there the theorems say the property holds, so a failure is a genuine
+  #    deviation of the real code), all stages of the generator
   gen = G.UnitGen(pytd, rng, 0.0)
+  drv = common.Driver("drv_c05")
   t0 = time.time()
   n = 0
-  while time.time() - t0 < 90 and len(found) < 2:
-    u = gen.unit(None)
-    n += 1
-    try:
-      if unit_fails(u):
-        small = _shrink_unit(u, mods, unit_fails)
-        text = pytd_utils.Print(small)
-        found.append({"unit_text": text, "what": oracle_unit(small, mods),
-                      "note": "generated unit in the emitted dialect, shrunk"})
-    except Exception as e:  # pylint: disable=broad-except
-      found.append({"unit_text": repr(u)[:1000], "exception": repr(e)})
+  while time.time() - t0 < 60 and len(found) < 2:
+    batch = []
+    for _ in range(150):
+      u = gen.unit(rng.choice([1, 1, 4, None]))
+      try:
+        batch.append((u, "unit " + L.unit_sx(pytd, u)))
+      except L.Unrepresentable:
+        pass
+    outs = drv.batch([b[1] for b in batch])
+    for (u, _), out in zip(batch, outs):
+      if parse_answer(out)["frag"] != "1":
+        continue
+      n += 1
+      try:
+        if unit_fails(u):
+          def fails_in_frag(v):
+            try:
+              o = drv.batch(["unit " + L.unit_sx(pytd, v)])[0]
+            except Exception:  # pylint: disable=broad-except
+              return False
+            return parse_answer(o)["frag"] == "1" and unit_fails(v)
+          small = _shrink_unit(u, mods, fails_in_frag)
+          found.append({"unit_text": pytd_utils.Print(small), "what": oracle_unit(small, mods),
+                        "note": "generated unit inside InFragment, shrunk"})
+          if len(found) >= 2:
+            break
+      except Exception as e:  # pylint: disable=broad-except
+        found.append({"unit_text": repr(u)[:1000], "exception": repr(e)})
+        break
   # 3. fresh programs
   pg = G.ProgGen(rng)
   t0 = time.time()
@@ -522,7 +552,7 @@ def search(res, rng, disagreements, pfail):
     bad = oracle_text(text.rstrip("\n"), mods)
     if bad is not None:
       found.append({"program": src, "emitted_stub": text, "what": bad})
-  res.cov["search"] = {"fresh_units_tried": n}
+  res.cov["search"] = {"fresh_in_fragment_units_tried": n}
   return found
 
 
